@@ -477,6 +477,28 @@ func C05(c *core.Ctx) {
 				if h := loopHeader(in.Block()); h != nil && !everyIterationPasses(fn, h, func(x ssa.Instruction) bool { return x == in }) {
 					good, why = false, "the max() accumulation skips some of the names (it is conditional inside the loop)"
 				}
+			case func() bool { k, isC := core.ConstInt(v); return isC && k == 0 }():
+				// reset before a recomputation: sound only when the very next thing is a
+				// loop in which EVERY iteration raises md by max(md, x) (no filter) — the
+				// maximum over all the remaining names; md is not read in between
+				good, why = false, "md is reset to 0 without an unconditional max() over all remaining names following it"
+				var acc ssa.Instruction
+				core.Instrs(fn, func(x ssa.Instruction) {
+					fa3, v3, ok3 := storeToField(x, "virtualDetails", "md")
+					if ok3 && x != in && fa3.Field == fa.Field && core.Same(fa3.X, fa.X) && isMaxOf(v3, isOwnMd) && core.InLoop(x.Block()) {
+						acc = x
+					}
+				})
+				if acc != nil {
+					h := loopHeader(acc.Block())
+					if h != nil && everyIterationPasses(fn, h, func(x ssa.Instruction) bool { return x == acc }) {
+						// the loop is entered from the reset on every path
+						fr := core.MustFollow(fn, core.After(in), func(x ssa.Instruction) bool { return x.Block() == h }, nil)
+						if fr.OK {
+							good = true
+						}
+					}
+				}
 			default:
 				// local accumulator: a loop-header phi whose back-edge value is max(phi, x)
 				if ph, ok := core.Strip(v).(*ssa.Phi); ok {
